@@ -239,3 +239,53 @@ Definition simple_fields (E : env) : list field := filter (fun f => negb (f_skip
 
 Theorem simple_idem_gen : forall t, simple_ty t -> forall j v, norm gen_env false j t = ROk v -> norm gen_env false v t = ROk v.
 Proof. intros t Ht. apply (simple_idem gen_env); [vm_compute; reflexivity|exact Ht]. Qed.
+
+(* ---------- ... and a value in normal form is returned as it is (C01) ---------- *)
+Fixpoint nf_at (t : fty) (j : json) {struct t} : Prop :=
+  match t with
+  | TStr => exists s, j = JStr s
+  | TBool => exists b, j = JBool b
+  | TF64 => exists m e, j = JNum m e
+  | TInt => exists m e, j = JNum m e /\ is_int_literal m e = true
+  | TAny => payload_nf j /\ j <> JNull
+  | TSlice t' => exists l, j = JArr l /\ Forall (nf_at t') l
+  | TMap t' => exists m, j = JObj m /\ StronglySorted mlt m /\ Forall (fun kv => nf_at t' (snd kv)) m
+  | TNamed k => k = "StringOrArray" /\ ((exists s, j = JStr s) \/ (exists x y r, j = JArr (x :: y :: r) /\ Forall (fun z => exists s, z = JStr s) (x :: y :: r)))
+  | _ => False
+  end.
+
+Section SimpleNF.
+Variable E : env.
+Hypothesis Hsoa : head_ty E 6 soa = soa.
+
+Theorem simple_nf_id : forall t, simple_ty t -> forall j, nf_at t j -> norm E false j t = ROk j.
+Proof.
+  intros t Ht. induction Ht; intros j Hnf.
+  - destruct Hnf as [s ->]. reflexivity.
+  - destruct Hnf as [b ->]. reflexivity.
+  - destruct Hnf as [m [e ->]]. reflexivity.
+  - destruct Hnf as [m [e [-> Hi]]]. cbn [norm head_ty]. rewrite Hi. reflexivity.
+  - destruct Hnf as [Hp Hn]. rewrite norm_payload. rewrite (norm_any_nf_id j Hp). reflexivity.
+  - destruct Hnf as [_ [[s ->]|[x [y [r [-> Hall]]]]]].
+    + apply (soa_str E false Hsoa).
+    + rewrite (soa_arr E false Hsoa).
+      assert (H1 : forallb strish (x :: y :: r) = true).
+      { apply forallb_forall. intros z Hz. rewrite Forall_forall in Hall. destruct (Hall z Hz) as [s ->]. reflexivity. }
+      rewrite H1.
+      assert (Hm : forall l, Forall (fun z => exists s, z = JStr s) l -> map fixnull l = l).
+      { clear. induction l as [|z zs IH]; intros H; [reflexivity|]. inversion H as [|? ? [s ->] Hr]; subst. cbn [map fixnull]. rewrite (IH Hr). reflexivity. }
+      rewrite (Hm _ Hall). inversion Hall as [|? ? [s ->] _]; subst. reflexivity.
+  - destruct Hnf as [l [-> Hall]]. rewrite norm_slice.
+    assert (Hl : lift_list (map (fun x => norm E false x t) l) = inl (Some l)).
+    { apply lift_all. induction Hall as [|x xs Hx _ IH]; [constructor|]. cbn [map]. constructor; [apply IHHt; exact Hx|exact IH]. }
+    rewrite Hl. reflexivity.
+  - destruct Hnf as [m [-> [Hs Hall]]]. cbn [norm head_ty]. change (map_go E t m [] = ROk (JObj m)).
+    assert (Hf : Forall2 (fun kv v => norm E false (snd kv) t = ROk v) m (map snd m)).
+    { induction Hall as [|kv r Hkv _ IH]; [constructor|]. cbn [map]. constructor; [apply IHHt; exact Hkv|].
+      apply IH. inversion Hs; assumption. }
+    rewrite (map_go_all E t m (map snd m) [] Hf). cbn [rev app]. rewrite combine_fst_snd. rewrite (sort_members_sorted_id m Hs). reflexivity.
+Qed.
+End SimpleNF.
+
+Theorem simple_nf_id_gen : forall t, simple_ty t -> forall j, nf_at t j -> norm gen_env false j t = ROk j.
+Proof. intros t Ht. apply (simple_nf_id gen_env); [vm_compute; reflexivity|exact Ht]. Qed.
